@@ -290,6 +290,11 @@ def oracle_c18(run, A, V):
         order = sorted(A.start, key=lambda t: A.start[t])
         if order != sorted(order, key=lambda t: int(t[1:])):
             V("pool-of-one-order", "requests handled out of arrival order with a pool of one: %r" % order)
+        # arrival order as the Proxy Adapter sees it: with one worker the replies come back in the order the requests were sent
+        ids = [r["id"] for r in scn["requests"]]
+        answered = [l.split("|", 1)[0] for l in A.lines if l.split("|", 1)[0] in ids]
+        if answered != [i for i in ids if i in answered]:
+            V("pool-of-one-order", "with a pool of one the requests %r were answered in the order %r" % ([i for i in ids if i in answered], answered))
     # a blocked adapter call does not stop the library: with a free worker the later request is answered and the run completes
     if scn.get("block"):
         if run.status != "quiescent" or run.final_blocked:
